@@ -713,10 +713,62 @@ impl Context {
         // been loaded. Forget about them, so that a later `use` imports them again.
         let imported_modules_old = self.resolver.imported_modules.clone();
 
-        let result = self.interpret_with_settings_impl(settings, code, code_source);
+        let result =
+            self.interpret_with_settings_impl(settings, code, code_source.clone());
 
         if result.is_err() {
             self.resolver.imported_modules = imported_modules_old;
+
+            // Everything this input did has been rolled back at this point: if it failed
+            // because of a currency unit that is not loaded yet, load the currency module
+            // (it stays loaded, whatever the outcome of the input) and try again.
+            if self.load_currency_module_on_demand
+                && let Err(err) = &result
+                && let NumbatError::TypeCheckError(TypeCheckError::UnknownIdentifier(
+                    _,
+                    identifier,
+                    _,
+                )) = err.as_ref()
+            {
+                const CURRENCY_IDENTIFIERS: &[&str] =
+                    &include!(concat!(env!("OUT_DIR"), "/currencies.rs"));
+                if CURRENCY_IDENTIFIERS.contains(&identifier.as_str()) {
+                    let mut no_print_settings = InterpreterSettings {
+                        print_fn: Box::new(
+                            move |_: &m::Markup| { // ignore any print statements when loading this module asynchronously
+                            },
+                        ),
+                    };
+
+                    // We also call this from a thread at program startup, so if a user only starts
+                    // to use currencies later on, this will already be available and return immediately.
+                    // Otherwise, we fetch it now and make sure to block on this call.
+                    {
+                        let erc = ExchangeRatesCache::fetch();
+
+                        if erc.is_none() {
+                            return Err(Box::new(NumbatError::RuntimeError(
+                                self.runtime_error(RuntimeErrorKind::CouldNotLoadExchangeRates),
+                            )));
+                        }
+                    }
+
+                    let _ = self.interpret_with_settings(
+                        &mut no_print_settings,
+                        "use units::currencies",
+                        CodeSource::Internal,
+                    )?;
+
+                    // Make sure we do not run into an infinite loop in case loading that
+                    // module did not bring in the required currency unit identifier. This
+                    // can happen if the list of currency identifiers is not in sync with
+                    // what the module actually defines.
+                    self.load_currency_module_on_demand = false;
+
+                    // Now we try to evaluate the user expression again:
+                    return self.interpret_with_settings(settings, code, code_source);
+                }
+            }
         }
 
         result
@@ -776,52 +828,6 @@ impl Context {
             self.prefix_transformer = prefix_transformer_old.clone();
             self.typechecker = typechecker_old.clone();
 
-            if self.load_currency_module_on_demand
-                && let Err(NumbatError::TypeCheckError(TypeCheckError::UnknownIdentifier(
-                    _,
-                    identifier,
-                    _,
-                ))) = &result
-            {
-                const CURRENCY_IDENTIFIERS: &[&str] =
-                    &include!(concat!(env!("OUT_DIR"), "/currencies.rs"));
-                if CURRENCY_IDENTIFIERS.contains(&identifier.as_str()) {
-                    let mut no_print_settings = InterpreterSettings {
-                        print_fn: Box::new(
-                            move |_: &m::Markup| { // ignore any print statements when loading this module asynchronously
-                            },
-                        ),
-                    };
-
-                    // We also call this from a thread at program startup, so if a user only starts
-                    // to use currencies later on, this will already be available and return immediately.
-                    // Otherwise, we fetch it now and make sure to block on this call.
-                    {
-                        let erc = ExchangeRatesCache::fetch();
-
-                        if erc.is_none() {
-                            return Err(Box::new(NumbatError::RuntimeError(
-                                self.runtime_error(RuntimeErrorKind::CouldNotLoadExchangeRates),
-                            )));
-                        }
-                    }
-
-                    let _ = self.interpret_with_settings(
-                        &mut no_print_settings,
-                        "use units::currencies",
-                        CodeSource::Internal,
-                    )?;
-
-                    // Make sure we do not run into an infinite loop in case loading that
-                    // module did not bring in the required currency unit identifier. This
-                    // can happen if the list of currency identifiers is not in sync with
-                    // what the module actually defines.
-                    self.load_currency_module_on_demand = false;
-
-                    // Now we try to evaluate the user expression again:
-                    return self.interpret_with_settings(settings, code, code_source);
-                }
-            }
         }
 
         let typed_statements = result?;
